@@ -113,6 +113,11 @@ impl HashMap<usize, ArbiterHandle> {
     { unimplemented!() }
 
     #[verifier::external_body]
+    pub fn with_capacity(n: usize) -> (r: HashMap<usize, ArbiterHandle>)
+        ensures r@ == Map::<usize, ArbiterHandle>::empty(), r.order().len() == 0, r.wf(),
+    { unimplemented!() }
+
+    #[verifier::external_body]
     pub fn nth_value_mut(&mut self, n: usize) -> (r: &mut ArbiterHandle)
         requires n < old(self).order().len(), old(self).wf(),
         ensures *r == old(self)@[old(self).order()[n as int]],
@@ -160,6 +165,15 @@ impl SystemController {
         &&& self.arbiters.wf()
         &&& (self.stop_tx.is_some() <==> forall|i: int| 0 <= i < self.cmd_rx.received().len() ==> !is_exit(#[trigger] self.cmd_rx.received()[i]))
     }
+
+//@extract file=actix-rt/src/system.rs item="impl SystemController / fn new" ret=r props=C09 name=system::controller_new
+//@spec
+    requires cmd_rx.received().len() == 0,
+    ensures
+        // a fresh controller owns the receiving end of the system's command queue and the (unused) sending end of the
+        // runner's stop channel, and knows no arbiter yet   [C09]
+        r.cmd_rx == cmd_rx, r.stop_tx == Some(stop_tx), r.arbiters@ == Map::<usize, ArbiterHandle>::empty(), r.wf(),
+//@end
 
 #[verifier::exec_allows_no_decreases_clause]
 #[verifier::loop_isolation(false)]
